@@ -170,6 +170,7 @@ Theorem gen_undictify_complex_values_eq (x : jval) :
 Proof.
   unfold g_undictify_complex_values.
   match goal with |- context [for_items_jv R ?b] => set (body := b) end.
+  autounfold with gen_loaders in body.      (* helpers of the loop body (key test, polar form), whatever their names *)
   assert (Hb : undict1_body body).
   { intros k v. subst body. cbn beta. lk_norm. unfold undict1, polar_value.
     destruct v as [| b | q | s | c | l | d]; try reflexivity.
@@ -298,17 +299,19 @@ Proof.
 Qed.
 
 (* ================= Circuit/dump_load.py ================= *)
+(* the table lookup may sit in a helper of its own (`try: return TABLE[x] except KeyError: raise E` = try_res .. (Err E)) or
+   in generate_component itself (reraise): both are unfolded; helpers are in the hint database gen_loaders *)
 Theorem gen_generate_component_eq (d : jdict) :
   g_generate_component R leb (JDict d) = generate_component_st R leb (JDict d).
 Proof.
   autounfold with gen_loaders.
-  unfold generate_component_st, generate_component_local, sbind, spop, sread, slift, bindS, tryS, reraise.
+  unfold generate_component_st, generate_component_local, sbind, spop, sread, slift, bindS, tryS, reraise, try_res.
   lk_norm. unfold py_copy, py_getitem, py_pop, py_table_item, lookup_component_factory, find_cfactory, py_kwargs, typeerror_to_incorrect.
   crushd.
 Qed.
 Theorem gen_generate_component_no_mutation (x : jval) : snd (g_generate_component R leb x) = x.
 Proof.
-  autounfold with gen_loaders. unfold bindS, tryS, reraise.
+  autounfold with gen_loaders. unfold bindS, tryS, reraise, try_res.
   unfold py_copy, py_getitem, py_pop, py_table_item, find_cfactory, py_kwargs.
   crush.
 Qed.
